@@ -464,15 +464,28 @@ impl ProgCheck {
         let mut idx = 0u32;
         for k in 2usize..=6 {
             for far in 0..k {
-                for kind in 0..3u8 {
+                for kind in 0..4u8 {
                     for order in 0..3u8 {
-                        for context in 0..2u8 {
+                        for context in 0..3u8 {
                             idx += 1;
                             if idx % ctx.of != ctx.shard {
                                 continue;
                             }
                             let mut defs: Vec<String> = Vec::new();
+                            // kind 3: an acyclic chain of parameterless functions (nothing in them can
+                            // fail), member `far` assigns the enclosing variable
                             for i in 0..k {
+                                if kind != 3 {
+                                    break;
+                                }
+                                let touch = if i == far { "finished get true\n" } else { "" };
+                                let ret = if i + 1 < k { format!("cy{}()", i + 1) } else { "1".to_string() };
+                                defs.push(format!("do cy{i}() start\n{touch}return {ret}\nend\n"));
+                            }
+                            for i in 0..k {
+                                if kind == 3 {
+                                    break;
+                                }
                                 let next = (i + 1) % k;
                                 let touch = if i == far {
                                     match kind {
@@ -492,17 +505,28 @@ impl ProgCheck {
                                 2 => defs.rotate_left(k / 2),
                                 _ => {}
                             }
+                            let arg = if kind == 3 { String::new() } else { (2 * k).to_string() };
                             let body = if kind < 2 {
                                 // the store must survive: a member of the cycle reads `mode`
                                 format!("make mode get \"quiet\"\n{}shout(cy0({}))\nmode get \"loud\"\nshout(cy0({}))\n", defs.concat(), 2 * k, 2 * k)
                             } else {
                                 // the call must survive: a member of the cycle assigns `finished`
-                                format!("make finished get false\n{}make ignored get cy0({})\nshout(finished)\n", defs.concat(), 2 * k)
+                                format!("make finished get false\n{}make ignored get cy0({arg})\nshout(finished)\n", defs.concat())
                             };
-                            let src = if context == 0 {
-                                body
-                            } else {
-                                format!("do outer() start\n{body}return 0\nend\nshout(outer())\n")
+                            let src = match context {
+                                0 => body,
+                                1 => format!("do outer() start\n{body}return 0\nend\nshout(outer())\n"),
+                                // variable and cycle at script level, the store / the unused call inside
+                                // a function: the variable's owner is not the function holding the statement
+                                _ if kind < 2 => format!(
+                                    "make mode get \"quiet\"\n{}shout(cy0({n}))\ndo outer() start\nmode get \"loud\"\nreturn cy0({n})\nend\nshout(outer())\n",
+                                    defs.concat(),
+                                    n = 2 * k
+                                ),
+                                _ => format!(
+                                    "make finished get false\n{}do outer() start\nmake ignored get cy0({arg})\nreturn 0\nend\nshout(outer())\nshout(finished)\n",
+                                    defs.concat()
+                                ),
                             };
                             ctx.eval();
                             ctx.nontrivial(source_hash(&src));
